@@ -330,7 +330,7 @@ def fuzz_supplement(prop, seed):
     os.makedirs(corpus)
     os.makedirs(arts)
     jobs = int(os.environ.get("FCV_FUZZ_JOBS", "8"))
-    runs = int(os.environ.get("FCV_FUZZ_RUNS", "150000"))
+    runs = int(os.environ.get("FCV_FUZZ_RUNS", "100000"))
     e = env()
     e["FCV_FUZZ_PROP"] = prop
     cmd = ["cargo", "+nightly", "fuzz", "run", "--fuzz-dir", fuzz, target] + feats + [corpus, "--",
@@ -339,14 +339,16 @@ def fuzz_supplement(prop, seed):
     p = subprocess.run(cmd, env=e, cwd=fuzz, stdout=subprocess.PIPE, stderr=subprocess.STDOUT, text=True)
     execs = 0
     new_units = 0
-    logs = p.stdout
+    # with -jobs every job writes fuzz-<k>.log and the parent echoes them; count each job once
+    joblogs = ""
     for f in sorted(os.listdir(fuzz)):
         if f.startswith("fuzz-") and f.endswith(".log"):
             try:
-                logs += open(os.path.join(fuzz, f)).read()
+                joblogs += open(os.path.join(fuzz, f)).read()
             except Exception:
                 pass
             os.remove(os.path.join(fuzz, f))
+    logs = joblogs if joblogs else p.stdout
     for line in logs.splitlines():
         if line.startswith("stat::number_of_executed_units:"):
             execs += int(line.split()[-1])
@@ -378,7 +380,7 @@ def miri_supplement(prop, seed):
     failures even where the drop counters cannot see them. A supplement: a
     build problem or a timeout is never a verdict. Returns (info, replay)."""
     procs = int(os.environ.get("FCV_MIRI_PROCS", "16"))
-    cases = int(os.environ.get("FCV_MIRI_CASES", "40"))
+    cases = int(os.environ.get("FCV_MIRI_CASES", "100"))
     e = env()
     e["MIRIFLAGS"] = "-Zmiri-ignore-leaks"
     tdir = os.path.join(HARNESS, "target-miri")
